@@ -78,7 +78,7 @@ Fixpoint lz_loop (fuel : nat) (rest rout : list N) (cap : N) : res (list N) :=
 
 (** carquet_lz4_decompress(src, |s|, dst, cap, &dst_size) *)
 Definition decompress (s : list N) (cap : N) : res (list N) :=
-  let* rout := lz_loop (S (length s)) s [] cap in Ok (rev rout).
+  let* rout := lz_loop (S (length s)) s [] cap in Ok (frev rout).
 
 (* ================================================================== compression *)
 
